@@ -499,7 +499,7 @@ fn reloader_history(rep: &mut Report, rng: &mut Rng, idx: u64) {
     for _ in 0..steps {
         let Some(cur_rate) = rate else { break };
         mtime += Duration::from_secs(1 + rng.below(5));
-        let kind = rng.below(10);
+        let kind = rng.below(12);
         // what is on disk after the edit: None = deleted
         let mut on_disk: Option<String> = Some(text.clone());
         let mut new_valid: Option<(ConfSpec, Option<u64>, u64)> = None;
@@ -549,6 +549,22 @@ fn reloader_history(rep: &mut Report, rng: &mut Rng, idx: u64) {
                 } else {
                     ops.push("poll-unchanged".into());
                 }
+            }
+            10 => {
+                // the file is replaced by one with an OLDER modification time (mv of a prepared file, cp -p, restored backup)
+                ops.push("valid-change-with-older-mtime".into());
+                version += 1;
+                let spec = gen_spec(rng, 4, 3);
+                let t = render_doc(&spec, rate, version, fmt);
+                write(&t, mtime - Duration::from_secs(7200));
+                on_disk = Some(t);
+                new_valid = Some((spec, rate, version));
+            }
+            11 => {
+                ops.push("tiny-broken-file".into());
+                let broken = (*rng.pick(&["{", "[", "x", "{{", ":"])).to_owned();
+                write(&broken, mtime);
+                on_disk = Some(broken);
             }
             5 => {
                 ops.push("unknown-root-key".into());
